@@ -208,7 +208,8 @@ S_Cancel(k) ==
        /\ cpend' = [cpend EXCEPT ![k] = @ \ {c}]
        /\ cinf' = [cinf EXCEPT ![k] = @ \ {c}]
        /\ c2s' = [c2s EXCEPT ![k] = IF c \in cinf[k] THEN Append(@, <<"cancel", c>>) ELSE @]
-  /\ UNCHANGED <<y, lq, srv, ckey, chand, cdead, closed, cq, s2c, sinf, respq, hs, cst, ck, dl, gate, now, phase, sched, nenv>>
+       /\ y' = IF c \in cinf[k] THEN YCancelOut(y, k, c) ELSE y
+  /\ UNCHANGED <<lq, srv, ckey, chand, cdead, closed, cq, s2c, sinf, respq, hs, cst, ck, dl, gate, now, phase, sched, nenv>>
 
 S_CliExpire(c) ==
   /\ SysOK /\ ck[c] # 0 /\ c \in cinf[ck[c]] /\ ~cdead[ck[c]] /\ now >= dl[c]
@@ -302,6 +303,7 @@ Spec == Init /\ [][Next]_vars
 Inv_Sys == NoBad(y)
 Inv_C01sys == y.bad01 = {}
 Inv_C02sys == y.bad02 = {}
+Inv_C03sys == y.bad03 = {}
 Inv_C04sys == y.bad04 = {}
 Inv_C05sys == y.bad05 = {}
 Inv_C06sys == y.bad06 = {}
